@@ -347,12 +347,15 @@ PROPS["C11"] = {
     "technique": "concurrent-client history testing on the resolver-world harness under a virtual clock (misbehaving authorities, generated arrival offsets, ingress-queue delays and attempt capacity), an at-rest invariant over every limiter and the dedup table read through verif-tagged accessors, plus a wall-clock unit that aims request expiry at the microsecond window between ingress and leader election",
     "level_text": ("Unit 'onereply': 2-12 clients are released concurrently inside the bubble at generated offsets against 1-3 zones whose authorities are healthy, silent, slow (1-12 s), truncating then stalling or resetting on TCP, sending garbage, answering another question, or failing; questions are identical and related; some clients arrive with half, all but 10 ms, exactly all, or more than all of their query timeout (3 s / 10 s) already spent in the ingress queue; the attempt capacity is 2, 4, 16 or 1000; wire-born and decoded transports; CD on/off. "
                    "Per client: exactly one reply (none only if it arrived expired), written before the serving call returns, carrying its own ID and question, no later than the budget it had left plus 250 ms; with ample capacity a client that asks a healthy name with a second or more of budget left gets that name's true answer whoever else was waiting on it. After the load plus 2x timeout + 40 s: every resolver limiter (attempts, resolutions, probes, per-zone in-flight) holds nothing, no question has a registered dedup leader, a fresh question for each healthy zone is answered within 2 s; the bubble itself fails if a goroutine is left blocked. "
-                   "Unit 'expiryrace' (wall clock, no bubble): batches of 40 unique questions arrive with 0-400 us of their 1 s timeout left, so that expiry lands before, inside and after the stretch between the server's ingress check and the cache's election; when every call has returned the same at-rest invariant must hold. Exploration."),
+                   "An 'expiry storm' opening (one case in five): 5-8 clients with 200-900 ms of their budget left ask distinct names of a slow (1 s) but answering single-server zone, then a client with its whole budget asks another name there and must be answered - other clients' expiry is no evidence against the authority. Unit 'streams' (wall clock, real TCP listener, stub upstream): 3-12 connections pipeline 1-5 complete queries (cached, uncached, slow, oversized) followed by nothing, half a length prefix, a prefix alone or a prefix with a third of a body, then stall, half-close or wait; every complete query must be answered exactly once before the server ends the connection. Unit 'expiryrace' (wall clock, no bubble): batches of 40 unique questions arrive with 0-400 us of their 1 s timeout left, so that expiry lands before, inside and after the stretch between the server's ingress check and the cache's election; when every call has returned the same at-rest invariant must hold. Exploration."),
     "level_note": "Trusted: the accessors (len of the limiter channels, sum of the per-zone buckets, number of keys in the dedup wait group). Ingress shedding, real sockets and slab accounting are not part of this harness (C10 drives the sockets). The expiryrace unit uses timing only as a stimulus; a machine too slow to land inside the window makes it vacuous (it reports the class 'both-sides-of-the-deadline'), never red.",
     "rule": ("evaluations = concurrent histories / batches. Non-trivial = identical questions were in flight together or some client was failed (onereply); a batch had requests on both sides of the deadline (expiryrace); distinct = hash(timeouts, capacity, authorities, client shapes)."),
     "units": {"onereply": {"pkg": "./server", "run": "^TestVerifC11OneReply$", "tiers": {"quick": T(500, 8, timeout=900), "thorough": T(15000, 12, timeout=3400)},
                            "floors": {"C11.onereply": {"identical-questions-in-flight": 0.5, "tight-capacity": 0.2, "servfail": 0.3, "healthy-with-budget": 0.04, "expired-on-arrival": 0.1, "post-load-probe": 0.2}}},
-              "expiryrace": {"pkg": "./server", "run": "^TestVerifC11ExpiryRace$", "tiers": {"quick": T(150, 2, timeout=600), "thorough": T(4000, 4, timeout=3000)}}},
+              "expiryrace": {"pkg": "./server", "run": "^TestVerifC11ExpiryRace$", "tiers": {"quick": T(150, 2, timeout=600), "thorough": T(4000, 4, timeout=3000)}},
+              "streams": {"pkg": "./server", "run": "^TestVerifC11Streams$", "tiers": {"quick": T(3, 4, timeout=900), "thorough": T(60, 6, timeout=3400)},
+                          "floors": {"C11.streams": {"partial-frame-after-burst": 0.8, "stalled-mid-frame": 0.5}}}},
+    "share": ["C10"],
 }
 
 PROPS["C09"] = {
